@@ -1545,17 +1545,14 @@ func resolveVarSeen(computed map[string]pr.RawTokens, token Token, seen []string
 	if utils.AsciiLower(fn.Name) != "var" {
 		arguments := []Token{}
 		for _, argument := range fn.Arguments {
-			if fna, isFunction := argument.(pa.FunctionBlock); isFunction && utils.AsciiLower(fna.Name) == "var" {
-				arguments = append(arguments, resolveVarSeen(computed, argument, seen, cyclic)...)
+			// var() itself, or a function with a var() at any depth
+			if resolved := resolveVarSeen(computed, argument, seen, cyclic); resolved != nil {
+				arguments = append(arguments, resolved...)
 			} else {
 				arguments = append(arguments, argument)
 			}
 		}
-		token = pa.NewFunctionBlock(token.Pos(), fn.Name, arguments)
-		if resolved := resolveVarSeen(computed, token, seen, cyclic); len(resolved) != 0 {
-			return resolved
-		}
-		return []Token{token}
+		return []Token{pa.NewFunctionBlock(token.Pos(), fn.Name, arguments)}
 	}
 
 	_, args := pa.ParseFunction(token)
